@@ -26,7 +26,8 @@
 //! `label,token,token,...,~<hex of the text after the last count>`, refs as above, po = 0|1 (header
 //! spelled PO), sep = h<hex> of the blanks/tabs written before every symbol and count (the last two
 //! and the row tails are used by the canonical printer only); an optional 10th field gives the order of
-//! the lines for the canonical printer: `,`-joined codes A I N D (the AC/ID/NA/DE line), M (matrix
+//! the lines for the canonical printer: `,`-joined codes A I N D (the AC/ID/NA/DE line; `A~<hex>` gives
+//! the blanks/tabs written between the line code and the value, default two blanks), M (matrix
 //! block), X (an XX line), R<i> (the i-th reference of <refs>: RN line, then RX / RT / RL lines for the
 //! pmid / title / link that are present), c<hex>.<hex>... (a run of CC lines, hex = text after the code),
 //! d<day>.<month>.<year>.<c|u>.<author hex> (a DT line), s<k><hex> (a BA/BS/BF/CO line: k = a|s|f|c, hex = the text after the code);
@@ -418,11 +419,16 @@ fn print_canon(vv: &Option<String>, recs: &[Rec], eol: &str, fnl: bool) -> Vec<u
     for (k, r) in recs.iter().enumerate() {
         let order = if r.order.is_empty() { default_order(r) } else { r.order.clone() };
         for code in &order {
-            match code.as_str() {
-                "A" => s += &format!("AC  {}{}", r.ac.as_deref().unwrap_or(""), eol),
-                "I" => s += &format!("ID  {}{}", r.id.as_deref().unwrap_or(""), eol),
-                "N" => s += &format!("NA  {}{}", r.na.as_deref().unwrap_or(""), eol),
-                "D" => s += &format!("DE  {}{}", r.de.as_deref().unwrap_or(""), eol),
+            // field codes may carry the blanks written after the line code: A~<hex> (default: two blanks)
+            let (code, pad) = match code.find('~') {
+                Some(i) if i == 1 => (&code[..1], String::from_utf8(unhex(&code[2..])).unwrap()),
+                _ => (code.as_str(), "  ".to_string()),
+            };
+            match code {
+                "A" => s += &format!("AC{}{}{}", pad, r.ac.as_deref().unwrap_or(""), eol),
+                "I" => s += &format!("ID{}{}{}", pad, r.id.as_deref().unwrap_or(""), eol),
+                "N" => s += &format!("NA{}{}{}", pad, r.na.as_deref().unwrap_or(""), eol),
+                "D" => s += &format!("DE{}{}{}", pad, r.de.as_deref().unwrap_or(""), eol),
                 "X" => s += &format!("XX{}", eol),
                 "M" => {
                     s += if r.po { "PO" } else { "P0" };
@@ -796,6 +802,12 @@ fn gen_rec(rng: &mut Rng, alpha: &str, maxw: u64, canon: bool) -> Rec {
         }
         if !r.syms.is_empty() {
             items.push("M".to_string());
+        }
+        for it in items.iter_mut() {
+            if it.as_str() != "M" && rng.chance(1, 3) {
+                let pad = blanks(rng, 0, 4);
+                *it = format!("{}~{}", it, hex(pad.as_bytes()));
+            }
         }
         if rng.chance(2, 3) {
             for i in (1..items.len()).rev() {
